@@ -1,8 +1,8 @@
 #!/bin/bash
-# Builds the verification framework from files on disk only (offline).
+# Builds the verification framework from files on disk only (offline). Idempotent.
 set -e
 cd "$(dirname "$0")"
 export CARGO_NET_OFFLINE=true
 mkdir -p work evidence replays
-(cd harness && cargo build --quiet 2>&1 | tail -5; cargo build --quiet --profile fastdebug 2>&1 | tail -5; cargo build --quiet --release 2>&1 | tail -5)
+python3 runner/prebuild.py
 echo "setup done"
